@@ -761,6 +761,57 @@ func (c *Ctx) wraps(e ast.Expr) bool {
 }
 
 // wrap reduces r into the range of T (two's complement).
+// shiftAmount: e is, up to parentheses and integer conversions, a left shift by a constant k.
+func (c *Ctx) shiftAmount(e ast.Expr) (int64, bool) {
+	for {
+		e = unparen(e)
+		if call, ok := e.(*ast.CallExpr); ok && len(call.Args) == 1 && c.info != nil {
+			if tv, ok := c.info.Types[call.Fun]; ok && tv.IsType() {
+				// a conversion to an integer type keeps the low k bits zero
+				if _, _, isInt := intRange(tv.Type); isInt {
+					e = call.Args[0]
+					continue
+				}
+			}
+		}
+		break
+	}
+	be, ok := e.(*ast.BinaryExpr)
+	if !ok || be.Op != token.SHL || c.info == nil {
+		return 0, false
+	}
+	tv, ok := c.info.Types[be.Y]
+	if !ok || tv.Value == nil {
+		return 0, false
+	}
+	k, exact := constant.Int64Val(constant.ToInt(tv.Value))
+	if !exact || k < 0 || k > 63 {
+		return 0, false
+	}
+	return k, true
+}
+
+// fitsBits: e is, up to conversions to wider unsigned types, an expression of an unsigned type of at most k bits.
+func (c *Ctx) fitsBits(e ast.Expr, k int64) bool {
+	for {
+		e = unparen(e)
+		if c.info == nil {
+			return false
+		}
+		T := c.typeOf(e)
+		if lo, hi, ok := intRange(T); ok && lo.Sign() == 0 && int64(hi.BitLen()) <= k {
+			return true
+		}
+		if call, ok := e.(*ast.CallExpr); ok && len(call.Args) == 1 {
+			if tv, ok := c.info.Types[call.Fun]; ok && tv.IsType() {
+				e = call.Args[0]
+				continue
+			}
+		}
+		return false
+	}
+}
+
 func wrapTo(r *Term, T types.Type) *Term {
 	lo, hi, ok := intRange(T)
 	if !ok {
@@ -894,6 +945,15 @@ func (c *Ctx) arith(op token.Token, l, r *Term, T types.Type, e ast.Expr) *Term 
 	case token.AND, token.OR, token.XOR, token.AND_NOT:
 		if c.spec {
 			panic(engineErr("bit operation in spec"))
+		}
+		if be, ok := e.(*ast.BinaryExpr); ok && (op == token.OR || op == token.XOR) {
+			// (x << k) | y with y < 2^k: the operands have no bit in common, the result is their sum
+			if k, ok := c.shiftAmount(be.X); ok && c.fitsBits(be.Y, k) {
+				return Add(l, r)
+			}
+			if k, ok := c.shiftAmount(be.Y); ok && c.fitsBits(be.X, k) {
+				return Add(l, r)
+			}
 		}
 		c.x.warn("bit operation %s treated as uninterpreted", exprText(e))
 		f := App("bitop."+op.String(), SInt, l, r)
